@@ -329,6 +329,161 @@ Proof. reflexivity. Qed.
 
 #[global] Opaque slice_loop map_loop struct_loop skip_elems skip_mems.
 
+
+(* ---------- unfolding lemmas by target type ---------- *)
+Lemma uf_S_bool f t old evs : under t = TBool ->
+  uf (S f) t old evs =
+  match evs with
+  | EVal (SBool b) :: r => UOk (GBool b) r
+  | EVal SNil :: r => UOk (GBool false) r
+  | _ => UErr evs
+  end.
+Proof. intro H. rewrite uf_S, H. reflexivity. Qed.
+
+Lemma uf_S_string f t old evs : under t = TString ->
+  uf (S f) t old evs =
+  match evs with
+  | EVal (SStr s) :: r => UOk (GStr s) r
+  | EVal SNil :: r => UOk (GStr []) r
+  | _ => UErr evs
+  end.
+Proof. intro H. rewrite uf_S, H. reflexivity. Qed.
+
+Lemma uf_S_num f t k old evs : under t = TNum k ->
+  uf (S f) t old evs =
+  match evs with
+  | EVal (SNum k' z) :: r => UOk (GNum (conv k' k z)) r
+  | EVal SNil :: r => UOk (GNum 0) r
+  | _ => UErr evs
+  end.
+Proof. intro H. rewrite uf_S, H. reflexivity. Qed.
+
+Lemma uf_S_iface f t old evs : under t = TIface ->
+  uf (S f) t old evs =
+  match evs with
+  | EVal s :: r => UOk (ifc_scalar s) r
+  | EArrStart _ bt :: _ =>
+      match uf f (TSlice (ifc_elem bt)) GNil evs with UOk v r => UOk (GIface (TSlice (ifc_elem bt)) v) r | UErr x => UErr x end
+  | EObjStart _ bt :: _ =>
+      match uf f (TMap (ifc_elem bt)) GNil evs with UOk v r => UOk (GIface (TMap (ifc_elem bt)) v) r | UErr x => UErr x end
+  | _ => UErr evs
+  end.
+Proof. intro H. rewrite uf_S, H. reflexivity. Qed.
+
+Lemma uf_S_ptr f t u old evs : under t = TPtr u ->
+  uf (S f) t old evs =
+  match evs with
+  | EVal SNil :: r => UOk GNil r
+  | _ => match uf f u (zero_of u) evs with UOk v r => UOk (GPtr v) r | UErr x => UErr x end
+  end.
+Proof. intro H. rewrite uf_S, H. reflexivity. Qed.
+
+Lemma uf_S_slice f t e old evs : under t = TSlice e ->
+  uf (S f) t old evs =
+  match evs with
+  | EArrStart l _ :: r =>
+      let '(cur, spare, wasnil) := slice_start e old (Z.max l 0) in
+      slice_loop f e wasnil (is_refl e) (S (length r)) cur spare O r
+  | _ => UErr evs
+  end.
+Proof. intro H. rewrite uf_S, H. reflexivity. Qed.
+
+Lemma uf_S_map f t e old evs : under t = TMap e ->
+  uf (S f) t old evs =
+  match evs with
+  | EObjStart _ _ :: r => map_loop f e (is_refl e) (S (length r)) (map_start e old) r
+  | _ => UErr evs
+  end.
+Proof. intro H. rewrite uf_S, H. reflexivity. Qed.
+
+Lemma uf_S_struct f t fs old evs : under t = TStruct fs ->
+  uf (S f) t old evs =
+  match evs with
+  | EObjStart _ _ :: r =>
+      match field_table (S (ftsize t)) fs O with
+      | inl _ => UErr evs
+      | inr tab => struct_loop f tab (S (length r)) old r
+      end
+  | _ => UErr evs
+  end.
+Proof. intro H. rewrite uf_S, H. reflexivity. Qed.
+
+Definition unsup_type (t : gtype) : bool :=
+  match t with TArray _ _ | TMapK _ | TNamed _ | TUnsup => true | _ => false end.
+
+Lemma uf_S_unsup f t old evs : unsup_type (under t) = true -> uf (S f) t old evs = UErr evs.
+Proof. intro H. rewrite uf_S. destruct (under t); try discriminate H; reflexivity. Qed.
+
+Lemma unsup_cases t : unsup_type (under t) = true \/
+  under t = TBool \/ under t = TString \/ (exists k, under t = TNum k) \/ under t = TIface \/
+  (exists u, under t = TPtr u) \/ (exists e, under t = TSlice e) \/ (exists e, under t = TMap e) \/
+  (exists fs, under t = TStruct fs).
+Proof.
+  destruct (under t); cbn [unsup_type]; eauto 12.
+Qed.
+
+(* ---------- general step lemmas for the loops ---------- *)
+Definition is_nil_ev (h : event) : bool := match h with EVal SNil => true | _ => false end.
+
+Lemma slice_loop_step f e wasnil refl g cur spare idx h p : starts_value h = true ->
+  slice_loop f e wasnil refl (S g) cur spare idx (h :: p) =
+  if refl && is_nil_ev h
+  then slice_loop f e wasnil refl g (sl_put cur idx (sl_oldel e refl cur spare idx)) (sl_spare cur spare idx) (S idx) p
+  else match uf f e (sl_oldel e refl cur spare idx) (h :: p) with
+       | UOk v r'' => slice_loop f e wasnil refl g (sl_put cur idx v) (sl_spare cur spare idx) (S idx) r''
+       | UErr x => UErr x
+       end.
+Proof.
+  intro Hh. rewrite slice_loop_S.
+  destruct h as [s| | | | | | | | |]; try discriminate Hh;
+    try (destruct refl; cbv beta iota; cbn [andb is_nil_ev]; reflexivity).
+  destruct s, refl; cbv beta iota; cbn [andb is_nil_ev]; reflexivity.
+Qed.
+
+Lemma map_loop_key f e refl g cur k b r' :
+  map_loop f e refl (S g) cur (key_event k b :: r') =
+  match (match r' with
+         | h :: r'' => if refl && is_nil_ev h then UOk (zero_of e) r'' else uf f e (zero_of e) r'
+         | [] => uf f e (zero_of e) r'
+         end) with
+  | UOk v r'' => map_loop f e refl g (Some (map_put k v (opt_map cur))) r''
+  | UErr x => UErr x
+  end.
+Proof.
+  rewrite map_loop_S.
+  destruct b; cbn [key_event]; cbv beta iota;
+    (destruct r' as [|[s| | | | | | | | |] r'']; [reflexivity|..];
+     try (destruct refl; cbn [andb is_nil_ev]; cbv beta iota; reflexivity);
+     destruct s, refl; cbn [andb is_nil_ev]; cbv beta iota; reflexivity).
+Qed.
+
+Lemma struct_loop_key f tab g cur k b r' :
+  struct_loop f tab (S g) cur (key_event k b :: r') =
+  match assoc_key k tab with
+  | None =>
+      match skip_value (S (length r')) r' with
+      | SkOk r'' => struct_loop f tab g cur r''
+      | SkMore => UErr []
+      | SkErr x => UErr x
+      end
+  | Some (path, ft) =>
+      match uf f ft (get_path path cur) r' with
+      | UOk v r'' => struct_loop f tab g (set_path path v cur) r''
+      | UErr x => UErr x
+      end
+  end.
+Proof. rewrite struct_loop_S. destruct b; reflexivity. Qed.
+
+Lemma flatten_nil_ev x h tl : flatten x = h :: tl -> is_nil_ev h = true -> tl = [].
+Proof.
+  destruct x as [s r|len bt es|len bt ms|bt es|bt ms].
+  - destruct s, r; cbn [flatten]; intros E _; injection E as _ <-; reflexivity.
+  - rewrite flatten_arr. intros E H. injection E as <- _. discriminate H.
+  - rewrite flatten_obj. intros E H. injection E as <- _. discriminate H.
+  - cbn [flatten]. intros E H. injection E as <- _. discriminate H.
+  - cbn [flatten]. intros E H. injection E as <- _. discriminate H.
+Qed.
+
 (* ====================================================================== *)
 (* Part 1: C13 - skipping a value                                          *)
 (* ====================================================================== *)
@@ -749,9 +904,7 @@ Lemma slice_loop_step_prim f e wasnil g cur spare idx h p : starts_value h = tru
   | UErr x => UErr x
   end.
 Proof.
-  intro Hh. rewrite slice_loop_S.
-  destruct h as [s| | | | | | | | |]; try discriminate Hh; try reflexivity.
-  destruct s; reflexivity.
+  intro Hh. rewrite slice_loop_step by exact Hh. reflexivity.
 Qed.
 
 Lemma replace_nth_app {A} (a : list A) x v b : replace_nth (length a) v (a ++ x :: b) = a ++ v :: b.
@@ -803,8 +956,7 @@ Lemma map_loop_step_prim f e g cur k b r' :
   | UErr x => UErr x
   end.
 Proof.
-  rewrite map_loop_S.
-  destruct b; cbn [key_event]; destruct r' as [|[s| | | | | | | | |] r'']; try reflexivity; destruct s; reflexivity.
+  rewrite map_loop_key. destruct r'; reflexivity.
 Qed.
 
 Definition put_all (kvs : list (bytes * gvalue)) (m : list (bytes * gvalue)) : list (bytes * gvalue) :=
@@ -997,8 +1149,951 @@ Proof.
 Qed.
 Print Assumptions C13_generic_top.
 
-(* the announced length is only a hint *)
-Example C13_generic_big_announced_length :
-  uf 10 TIface GNil [EArrStart 1000000 BAny; EVal (SNum KInt 7); EArrEnd]
+(* ====================================================================== *)
+(* Part 3: C10 - extended events and by-reference delivery                 *)
+(* ====================================================================== *)
+
+Definition plain_event (e : event) : bool :=
+  match e with EXArr _ _ | EXObj _ _ | EStrRef _ | EKeyRef _ => false | _ => true end.
+
+Lemma expand_plain_event e : plain_event e = true -> expand e = [e].
+Proof. destruct e; intro H; try discriminate H; reflexivity. Qed.
+
+Lemma flat_map_expand_plain l : forallb plain_event l = true -> flat_map expand l = l.
+Proof.
+  induction l as [|e l IH]; [reflexivity|]. cbn [forallb flat_map]. intro H.
+  apply andb_true_iff in H. destruct H as [H1 H2].
+  rewrite (expand_plain_event e H1), (IH H2). reflexivity.
+Qed.
+
+Lemma forallb_app' {A} (p : A -> bool) a b : forallb p (a ++ b) = forallb p a && forallb p b.
+Proof. induction a as [|x a IH]; [reflexivity|]. cbn [app forallb]. rewrite IH, andb_assoc. reflexivity. Qed.
+
+Lemma expand_is_plain e : forallb plain_event (expand e) = true.
+Proof.
+  destruct e as [s|b|len bt| |len bt| |k|k|bt es|bt ms]; try reflexivity.
+  - cbn [expand forallb plain_event andb]. rewrite forallb_app'. cbn [forallb plain_event andb].
+    rewrite andb_true_r. induction es as [|s es IH]; [reflexivity|]. cbn [map forallb plain_event andb]. exact IH.
+  - cbn [expand forallb plain_event andb]. rewrite forallb_app'. cbn [forallb plain_event andb].
+    rewrite andb_true_r. induction ms as [|m ms IH]; [reflexivity|]. cbn [flat_map app forallb plain_event andb]. exact IH.
+Qed.
+
+Lemma flat_map_expand_is_plain evs : forallb plain_event (flat_map expand evs) = true.
+Proof.
+  induction evs as [|e evs IH]; [reflexivity|]. cbn [flat_map]. rewrite forallb_app', expand_is_plain, IH. reflexivity.
+Qed.
+
+Theorem flat_map_expand_idem evs : flat_map expand (flat_map expand evs) = flat_map expand evs.
+Proof. apply flat_map_expand_plain, flat_map_expand_is_plain. Qed.
+
+(* C10: the unfolder treats an extended event exactly as its expansion (what the adapter
+   would deliver) *)
+Theorem C10_unfold_expand : forall t old evs,
+  unfold_value t old (flat_map expand evs) = unfold_value t old evs.
+Proof. intros t old evs. unfold unfold_value. rewrite flat_map_expand_idem. reflexivity. Qed.
+Print Assumptions C10_unfold_expand.
+
+(* by-reference delivery of strings and keys is irrelevant, event by event *)
+Inductive ref_equiv : event -> event -> Prop :=
+| re_refl e : ref_equiv e e
+| re_str s : ref_equiv (EStrRef s) (EVal (SStr s))
+| re_str' s : ref_equiv (EVal (SStr s)) (EStrRef s)
+| re_key k : ref_equiv (EKeyRef k) (EKey k)
+| re_key' k : ref_equiv (EKey k) (EKeyRef k).
+
+Lemma ref_equiv_expand a b : ref_equiv a b -> expand a = expand b.
+Proof. destruct 1; reflexivity. Qed.
+
+Theorem C10_unfold_byref : forall t old evs evs',
+  Forall2 ref_equiv evs evs' -> unfold_value t old evs = unfold_value t old evs'.
+Proof.
+  intros t old evs evs' H. unfold unfold_value.
+  replace (flat_map expand evs') with (flat_map expand evs); [reflexivity|].
+  induction H as [|a b l l' Hab _ IH]; [reflexivity|]. cbn [flat_map]. rewrite (ref_equiv_expand a b Hab), IH. reflexivity.
+Qed.
+Print Assumptions C10_unfold_byref.
+
+Definition deref (e : event) : event :=
+  match e with EStrRef s => EVal (SStr s) | EKeyRef k => EKey k | _ => e end.
+
+Corollary C10_unfold_deref : forall t old evs, unfold_value t old (map deref evs) = unfold_value t old evs.
+Proof.
+  intros t old evs. symmetry. apply C10_unfold_byref.
+  induction evs as [|e evs IH]; constructor; [|exact IH]. destruct e; constructor.
+Qed.
+
+(* a document delivered through the extended interface or through the adapters of C09/C16
+   (EnsureExtVisitor around a plain visitor) reaches the unfolder as the same events *)
+Corollary C10_unfold_tree : forall t old tr,
+  unfold_value t old (flatten tr) = unfold_value t old (flatten (expand_tree tr)).
+Proof. intros t old tr. rewrite expand_deep_is_flatten, C10_unfold_expand. reflexivity. Qed.
+
+(* ====================================================================== *)
+(* Part 4: C14 - no allocation out of proportion                           *)
+(* ====================================================================== *)
+
+(* size of a Go value: number of scalars, elements, members, pointers, interfaces *)
+Fixpoint gsize (v : gvalue) : nat :=
+  match v with
+  | GBool _ | GStr _ | GNum _ | GNil => 1
+  | GPtr x => S (gsize x)
+  | GList vs => S (list_sum (map gsize vs))
+  | GIface _ x => S (gsize x)
+  | GMap kvs => S (list_sum (map (fun kv => gsize (snd kv)) kvs))
+  | GStruct vs => S (list_sum (map gsize vs))
+  end.
+
+Definition gsum (l : list gvalue) : nat := list_sum (map gsize l).
+Definition glen (v : gvalue) : nat := match v with GList l => length l | _ => O end.
+
+Lemma gsize_pos v : (1 <= gsize v)%nat.
+Proof. destruct v; cbn [gsize]; lia. Qed.
+
+(* a scalar target consumes exactly one event *)
+Lemma uf_prim_one fuel e old evs v r : prim_kind e = true ->
+  uf fuel e old evs = UOk v r -> (exists h, evs = h :: r) /\ gsize v = 1%nat.
+Proof.
+  unfold prim_kind. intros Hp H. destruct fuel as [|f]; [rewrite uf_O in H; discriminate H|].
+  destruct (under e) eqn:U; try discriminate Hp.
+  - rewrite uf_S_bool in H by exact U.
+    destruct evs as [|[s| | | | | | | | |] evs]; try discriminate H; destruct s; try discriminate H;
+      injection H as <- <-; split; eauto.
+  - rewrite uf_S_string in H by exact U.
+    destruct evs as [|[s| | | | | | | | |] evs]; try discriminate H; destruct s; try discriminate H;
+      injection H as <- <-; split; eauto.
+  - rewrite (uf_S_num _ _ k) in H by exact U.
+    destruct evs as [|[s| | | | | | | | |] evs]; try discriminate H; destruct s; try discriminate H;
+      injection H as <- <-; split; eauto.
+Qed.
+
+Lemma prim_not_refl e : prim_kind e = true -> is_refl e = false.
+Proof. unfold is_refl. intros ->. reflexivity. Qed.
+
+Lemma sl_put_length cur idx v : (idx <= length cur)%nat -> length (sl_put cur idx v) = Nat.max (length cur) (S idx).
+Proof.
+  unfold sl_put, sl_have. intro H. destruct (Nat.ltb idx (length cur)) eqn:E.
+  - apply Nat.ltb_lt in E.
+    assert (L : forall (l : list gvalue) i, length (replace_nth i v l) = length l).
+    { induction l as [|y l IHl]; intros [|i]; cbn [replace_nth length]; auto. }
+    rewrite L. lia.
+  - apply Nat.ltb_ge in E. rewrite app_length. cbn [length]. lia.
+Qed.
+
+Lemma slice_final_glen wasnil cur : glen (slice_final wasnil cur) = length cur.
+Proof. destruct cur; [destruct wasnil|]; reflexivity. Qed.
+
+Definition is_arr_end (evs : list event) : bool := match evs with EArrEnd :: _ => true | _ => false end.
+
+Lemma slice_loop_prim_step f e wasnil g cur spare idx evs : is_arr_end evs = false ->
+  slice_loop f e wasnil false (S g) cur spare idx evs =
+  match uf f e (sl_oldel e false cur spare idx) evs with
+  | UOk v r'' => slice_loop f e wasnil false g (sl_put cur idx v) (sl_spare cur spare idx) (S idx) r''
+  | UErr x => UErr x
+  end.
+Proof.
+  intro H. rewrite slice_loop_S.
+  destruct evs as [|[s| | | | | | | | |] p]; try discriminate H; cbv beta iota; try reflexivity.
+  destruct s; reflexivity.
+Qed.
+
+Lemma slice_loop_prim_len f e wasnil : prim_kind e = true ->
+  forall g cur spare idx evs v rest,
+    slice_loop f e wasnil false g cur spare idx evs = UOk v rest -> (idx <= length cur)%nat ->
+    exists m, length evs = (m + 1 + length rest)%nat /\ glen v = Nat.max (length cur) (idx + m).
+Proof.
+  intro Hp. induction g as [|g IH]; intros cur spare idx evs v rest H Hi; [rewrite slice_loop_O in H; discriminate H|].
+  destruct (is_arr_end evs) eqn:Ee.
+  - destruct evs as [|[] p]; try discriminate Ee. rewrite slice_loop_S in H. injection H as <- <-.
+    exists O. cbn [length]. rewrite slice_final_glen. split; lia.
+  - rewrite slice_loop_prim_step in H by exact Ee.
+    match type of H with (match ?X with _ => _ end) = _ => destruct X as [v' r'|] eqn:E end; [|discriminate H].
+    apply (uf_prim_one _ _ _ _ _ _ Hp) in E. destruct E as [[h' ->] _].
+    apply IH in H; [|rewrite sl_put_length by exact Hi; lia].
+    destruct H as (m & H1 & H2). exists (S m). cbn [length]. split; [lia|].
+    rewrite H2, sl_put_length by exact Hi. lia.
+Qed.
+
+(* C14 for slices of scalars: the result has as many elements as the stream delivered, or as
+   the target already had, or as were pre-allocated - and never more than 4096 are
+   pre-allocated, whatever length the stream announces *)
+Theorem C14_slice_of_scalars : forall fuel t e old evs v rest,
+  under t = TSlice e -> prim_kind e = true ->
+  uf fuel t old evs = UOk v rest ->
+  exists n, length evs = (n + 2 + length rest)%nat /\
+            (glen v <= Nat.max (Nat.max (glen old) (Z.to_nat max_initial_len)) n)%nat.
+Proof.
+  intros fuel t e old evs v rest U Hp H.
+  destruct fuel as [|f]; [rewrite uf_O in H; discriminate H|].
+  rewrite (uf_S_slice _ _ e) in H by exact U.
+  destruct evs as [|[s|b|l bt| | | | | | |] r]; try discriminate H.
+  rewrite (prim_not_refl e Hp) in H.
+  destruct (slice_start e old (Z.max l 0)) as [[cur spare] wasnil] eqn:Es.
+  apply (slice_loop_prim_len _ _ _ Hp) in H; [|lia].
+  destruct H as (m & H1 & H2). exists m. cbn [length]. split; [lia|].
+  rewrite H2. cbn [Nat.add].
+  assert (length cur <= Nat.max (glen old) (Z.to_nat max_initial_len))%nat; [|lia].
+  unfold slice_start in Es. destruct old; try (injection Es as <- _ _; rewrite repeat_length; lia).
+  destruct (Z.max l 0 <? zlen vs); injection Es as <- _ _; cbn [glen]; [rewrite firstn_length|]; lia.
+Qed.
+Print Assumptions C14_slice_of_scalars.
+
+(* ---------- the general bound ---------- *)
+Definition zs (t : gtype) : nat := gsize (zero_of t).
+(* targets whose previous content is ignored *)
+Definition fresh (t : gtype) : bool := prim_kind t || match under t with TIface => true | _ => false end.
+Definition ob (t : gtype) (old : gvalue) : nat := if fresh t then O else gsize old.
+Definition zs' (t : gtype) : nat := if fresh t then O else zs t.
+
+Definition cI : nat := 2049.
+
+(* growth per consumed event: an array start pre-allocates at most 4096 zero elements *)
+Fixpoint W (t : gtype) : nat :=
+  match t with
+  | TBool | TString | TNum _ => 1
+  | TIface => cI
+  | TPtr u => 1 + zs u + W u
+  | TSlice e => 2049 * zs e + W e
+  | TMap e => zs e + W e
+  | TStruct fs => (fix go (l : list (bytes * bytes * gtype)) : nat :=
+                     match l with [] => O | (_, _, ft) :: r => Nat.max (W ft) (go r) end) fs
+  | TNamed u => W u
+  | TArray _ _ | TMapK _ | TUnsup => O
+  end.
+
+Definition Wfields (fs : list (bytes * bytes * gtype)) : nat :=
+  (fix go (l : list (bytes * bytes * gtype)) : nat :=
+     match l with [] => O | (_, _, ft) :: r => Nat.max (W ft) (go r) end) fs.
+
+Lemma W_struct fs : W (TStruct fs) = Wfields fs.
+Proof. reflexivity. Qed.
+
+Lemma Wfields_cons n tg ft fs : Wfields ((n, tg, ft) :: fs) = Nat.max (W ft) (Wfields fs).
+Proof. reflexivity. Qed.
+
+Lemma W_under t : W t = W (under t).
+Proof. destruct t; reflexivity. Qed.
+
+Lemma zero_under t : zero_of t = zero_of (under t).
+Proof. destruct t; reflexivity. Qed.
+
+Lemma fresh_facts t : fresh t = true -> (1 <= W t)%nat /\ zs t = 1%nat.
+Proof.
+  unfold fresh, prim_kind, zs. rewrite W_under, (zero_under t). intro H.
+  destruct (under t); try discriminate H; cbn [W zero_of gsize]; unfold cI; lia.
+Qed.
+
+Lemma zs_le e : (zs e <= zs' e + W e)%nat.
+Proof.
+  unfold zs'. destruct (fresh e) eqn:F; [|lia]. destruct (fresh_facts e F). lia.
+Qed.
+
+Lemma zs'_le e : (zs' e <= zs e)%nat.
+Proof. unfold zs'. destruct (fresh e); lia. Qed.
+
+(* what the induction carries: how far the input was consumed and how much the value grew *)
+Definition size_ok (t : gtype) (old : gvalue) (evs : list event) (v : gvalue) (rest : list event) : Prop :=
+  exists n, length evs = (n + length rest)%nat /\ (1 <= n)%nat /\ (gsize v <= ob t old + W t * n)%nat.
+
+Definition size_at (f : nat) : Prop :=
+  forall t old evs v rest, uf f t old evs = UOk v rest -> size_ok t old evs v rest.
+
+Lemma gsum_app a b : gsum (a ++ b) = (gsum a + gsum b)%nat.
+Proof. unfold gsum. rewrite map_app, list_sum_app. reflexivity. Qed.
+
+Lemma gsum_cons x l : gsum (x :: l) = (gsize x + gsum l)%nat.
+Proof. reflexivity. Qed.
+Lemma gsum_nil : gsum [] = O.
+Proof. reflexivity. Qed.
+
+Lemma gsum_replace_nth v : forall cur idx, (idx < length cur)%nat ->
+  (gsum (replace_nth idx v cur) + gsize (nth idx cur GNil) = gsum cur + gsize v)%nat.
+Proof.
+  induction cur as [|y cur IH]; intros idx H; [cbn in H; lia|].
+  destruct idx as [|idx]; cbn [replace_nth nth].
+  - rewrite !gsum_cons. lia.
+  - cbn [length] in H. specialize (IH idx ltac:(lia)). rewrite !gsum_cons. lia.
+Qed.
+
+Lemma gsum_tl l : (gsum (tl l) <= gsum l)%nat.
+Proof. destruct l; cbn [tl]; rewrite ?gsum_cons; lia. Qed.
+
+(* one step of the slice loop: the new element against the one it started from *)
+Lemma sl_step_size1 e refl cur spare idx v :
+  (gsum (sl_put cur idx v) + gsum (sl_spare cur spare idx) + gsize (sl_oldel e refl cur spare idx)
+   <= gsum cur + gsum spare + gsize v + zs e)%nat.
+Proof.
+  unfold sl_put, sl_spare, sl_oldel, sl_have. destruct (Nat.ltb idx (length cur)) eqn:E.
+  - apply Nat.ltb_lt in E. pose proof (gsum_replace_nth v cur idx E). lia.
+  - rewrite gsum_app, gsum_cons, gsum_nil.
+    destruct refl; [destruct spare as [|x sp]|]; cbn [hd tl]; fold (zs e); rewrite ?gsum_cons, ?gsum_nil.
+    + lia.
+    + lia.
+    + pose proof (gsum_tl spare). lia.
+Qed.
+
+Lemma sl_step_size2 cur spare idx v :
+  (gsum (sl_put cur idx v) + gsum (sl_spare cur spare idx) <= gsum cur + gsum spare + gsize v)%nat.
+Proof.
+  unfold sl_put, sl_spare, sl_have. destruct (Nat.ltb idx (length cur)) eqn:E.
+  - apply Nat.ltb_lt in E. pose proof (gsum_replace_nth v cur idx E). lia.
+  - rewrite gsum_app, gsum_cons, gsum_nil. pose proof (gsum_tl spare). lia.
+Qed.
+
+Lemma slice_final_size wasnil cur : (gsize (slice_final wasnil cur) <= 1 + gsum cur)%nat.
+Proof. destruct cur as [|x cur]; [destruct wasnil; cbn; lia|]. cbn [slice_final gsize]. fold (gsum (x :: cur)). lia. Qed.
+
+Lemma slice_loop_step_gen f e wasnil refl g cur spare idx evs : is_arr_end evs = false ->
+  slice_loop f e wasnil refl (S g) cur spare idx evs =
+  if refl && match evs with h :: _ => is_nil_ev h | [] => false end
+  then slice_loop f e wasnil refl g (sl_put cur idx (sl_oldel e refl cur spare idx)) (sl_spare cur spare idx) (S idx) (tl evs)
+  else match uf f e (sl_oldel e refl cur spare idx) evs with
+       | UOk v r'' => slice_loop f e wasnil refl g (sl_put cur idx v) (sl_spare cur spare idx) (S idx) r''
+       | UErr x => UErr x
+       end.
+Proof.
+  intro H. rewrite slice_loop_S.
+  destruct evs as [|[s| | | | | | | | |] p]; try discriminate H; cbv beta iota;
+    try (destruct refl; cbn [andb is_nil_ev tl]; reflexivity).
+  destruct s, refl; cbn [andb is_nil_ev tl]; reflexivity.
+Qed.
+
+Lemma slice_loop_size f e wasnil refl : size_at f ->
+  forall g cur spare idx evs v rest,
+    slice_loop f e wasnil refl g cur spare idx evs = UOk v rest ->
+    exists n, length evs = (n + 1 + length rest)%nat /\
+              (gsize v <= 1 + gsum cur + gsum spare + (zs' e + W e) * n)%nat.
+Proof.
+  intro Hel. induction g as [|g IH]; intros cur spare idx evs v rest H; [rewrite slice_loop_O in H; discriminate H|].
+  destruct (is_arr_end evs) eqn:Ee.
+  - destruct evs as [|[] p]; try discriminate Ee. rewrite slice_loop_S in H. injection H as <- <-.
+    exists O. cbn [length]. pose proof (slice_final_size wasnil cur). split; lia.
+  - rewrite slice_loop_step_gen in H by exact Ee.
+    destruct (refl && match evs with h :: _ => is_nil_ev h | [] => false end) eqn:En.
+    + destruct evs as [|h p]; [rewrite andb_false_r in En; discriminate En|]. cbn [tl] in H.
+      apply IH in H. destruct H as (n & H1 & H2). exists (S n). cbn [length]. split; [lia|].
+      pose proof (sl_step_size1 e refl cur spare idx (sl_oldel e refl cur spare idx)).
+      pose proof (zs_le e). nia.
+    + destruct (uf f e (sl_oldel e refl cur spare idx) evs) as [v' r'|] eqn:U; [|discriminate H].
+      apply Hel in U. destruct U as (n1 & U1 & U2 & U3).
+      apply IH in H. destruct H as (n & H1 & H2). exists (n1 + n)%nat. split; [lia|].
+      unfold ob, zs' in *. destruct (fresh e) eqn:F.
+      * pose proof (sl_step_size2 cur spare idx v'). nia.
+      * pose proof (sl_step_size1 e refl cur spare idx v'). nia.
+Qed.
+
+(* ---------- the map loop ---------- *)
+Definition gsumkv (m : list (bytes * gvalue)) : nat := list_sum (map (fun kv => gsize (snd kv)) m).
+
+Lemma gsumkv_cons k v m : gsumkv ((k, v) :: m) = (gsize v + gsumkv m)%nat.
+Proof. reflexivity. Qed.
+
+Lemma map_put_size k v m : (gsumkv (map_put k v m) <= gsumkv m + gsize v)%nat.
+Proof.
+  induction m as [|[k' v'] m IH]; cbn [map_put].
+  - rewrite gsumkv_cons. unfold gsumkv. cbn. lia.
+  - destruct (bytes_eqb k k'); [rewrite !gsumkv_cons; lia|].
+    destruct (bytes_ltb k k'); rewrite !gsumkv_cons; lia.
+Qed.
+
+Lemma map_final_size cur : gsize (map_final cur) = (1 + gsumkv (opt_map cur))%nat.
+Proof. destruct cur; reflexivity. Qed.
+
+Lemma map_loop_size f e refl : size_at f ->
+  forall g cur evs v rest,
+    map_loop f e refl g cur evs = UOk v rest ->
+    exists n, length evs = (n + 1 + length rest)%nat /\
+              (gsize v <= 1 + gsumkv (opt_map cur) + (zs' e + W e) * n)%nat.
+Proof.
+  intro Hel. induction g as [|g IH]; intros cur evs v rest H; [rewrite map_loop_O in H; discriminate H|].
+  assert (Hkey : forall k b p, map_loop f e refl (S g) cur (key_event k b :: p) = UOk v rest ->
+            exists n, length (key_event k b :: p) = (n + 1 + length rest)%nat /\
+                      (gsize v <= 1 + gsumkv (opt_map cur) + (zs' e + W e) * n)%nat).
+  { intros k b p Hk. rewrite map_loop_key in Hk.
+    assert (Huf : forall v' r', uf f e (zero_of e) p = UOk v' r' ->
+              map_loop f e refl g (Some (map_put k v' (opt_map cur))) r' = UOk v rest ->
+              exists n, length (key_event k b :: p) = (n + 1 + length rest)%nat /\
+                        (gsize v <= 1 + gsumkv (opt_map cur) + (zs' e + W e) * n)%nat).
+    { intros v' r' U L. apply Hel in U. destruct U as (n1 & U1 & U2 & U3).
+      apply IH in L. destruct L as (n & L1 & L2). exists (1 + n1 + n)%nat. cbn [length]. split; [lia|].
+      cbn [opt_map] in L2. pose proof (map_put_size k v' (opt_map cur)).
+      unfold ob, zs', zs in *. destruct (fresh e); nia. }
+    destruct p as [|h p].
+    - destruct (uf f e (zero_of e) []) as [v' r'|] eqn:U; [|discriminate Hk]. eapply Huf; eauto.
+    - destruct (refl && is_nil_ev h) eqn:En.
+      + apply IH in Hk. destruct Hk as (n & L1 & L2). exists (2 + n)%nat. cbn [length]. split; [lia|].
+        cbn [opt_map] in L2. pose proof (map_put_size k (zero_of e) (opt_map cur)).
+        pose proof (zs_le e). unfold zs in *. nia.
+      + destruct (uf f e (zero_of e) (h :: p)) as [v' r'|] eqn:U; [|discriminate Hk]. eapply Huf; eauto. }
+  destruct evs as [|h p]; [rewrite map_loop_S in H; discriminate H|].
+  destruct h; try (rewrite map_loop_S in H; discriminate H).
+  - rewrite map_loop_S in H. injection H as <- <-. exists O. rewrite map_final_size. cbn [length]. split; lia.
+  - apply (Hkey k false p H).
+  - apply (Hkey k true p H).
+Qed.
+
+(* ---------- skipping consumes at least one event and never runs backwards ---------- *)
+Definition skip_len_at (f : nat) : Prop :=
+  forall evs r, skip_value f evs = SkOk r -> exists n, length evs = (n + length r)%nat /\ (1 <= n)%nat.
+
+Lemma skip_elems_len f : skip_len_at f ->
+  forall g evs r, skip_elems f g evs = SkOk r -> exists n, length evs = (n + length r)%nat /\ (1 <= n)%nat.
+Proof.
+  intro Hf. induction g as [|g IH]; intros evs r H; [discriminate H|].
+  rewrite skip_elems_S in H. destruct evs as [|h p]; [discriminate H|].
+  assert (Hv : match skip_value f (h :: p) with SkOk r' => skip_elems f g r' | x => x end = SkOk r ->
+               exists n, length (h :: p) = (n + length r)%nat /\ (1 <= n)%nat).
+  { intro Hs. destruct (skip_value f (h :: p)) as [r'| |] eqn:E; try discriminate Hs.
+    apply Hf in E. destruct E as (n1 & E1 & E2). apply IH in Hs. destruct Hs as (n & H1 & H2).
+    exists (n1 + n)%nat. split; lia. }
+  destruct h; try (apply Hv; exact H).
+  injection H as <-. exists 1%nat. cbn [length]. split; lia.
+Qed.
+
+Lemma skip_mems_len f : skip_len_at f ->
+  forall g evs r, skip_mems f g evs = SkOk r -> exists n, length evs = (n + length r)%nat /\ (1 <= n)%nat.
+Proof.
+  intro Hf. induction g as [|g IH]; intros evs r H; [discriminate H|].
+  rewrite skip_mems_S in H. destruct evs as [|h p]; [discriminate H|].
+  assert (Hv : match skip_value f (h :: p) with SkOk r' => skip_mems f g r' | x => x end = SkOk r ->
+               exists n, length (h :: p) = (n + length r)%nat /\ (1 <= n)%nat).
+  { intro Hs. destruct (skip_value f (h :: p)) as [r'| |] eqn:E; try discriminate Hs.
+    apply Hf in E. destruct E as (n1 & E1 & E2). apply IH in Hs. destruct Hs as (n & H1 & H2).
+    exists (n1 + n)%nat. split; lia. }
+  destruct h; try (apply Hv; exact H).
+  - injection H as <-. exists 1%nat. cbn [length]. split; lia.
+  - apply IH in H. destruct H as (n & H1 & H2). exists (S n). cbn [length]. split; lia.
+  - apply IH in H. destruct H as (n & H1 & H2). exists (S n). cbn [length]. split; lia.
+Qed.
+
+Lemma skip_len : forall f, skip_len_at f.
+Proof.
+  induction f as [|f IH]; intros evs r H; [discriminate H|].
+  rewrite skip_value_S in H. destruct evs as [|h p]; [discriminate H|].
+  destruct h; try discriminate H.
+  - injection H as <-. exists 1%nat. cbn [length]. split; lia.
+  - injection H as <-. exists 1%nat. cbn [length]. split; lia.
+  - apply (skip_elems_len f IH) in H. destruct H as (n & H1 & H2). exists (S n). cbn [length]. split; lia.
+  - apply (skip_mems_len f IH) in H. destruct H as (n & H1 & H2). exists (S n). cbn [length]. split; lia.
+Qed.
+
+(* ---------- struct targets ---------- *)
+Lemma replace_nth_beyond {A} (y : A) : forall l i, (length l <= i)%nat -> replace_nth i y l = l.
+Proof.
+  induction l as [|x l IH]; intros i H; [destruct i; reflexivity|].
+  destruct i as [|i]; [cbn in H; lia|]. cbn [replace_nth]. rewrite IH; [reflexivity|cbn [length] in H; lia].
+Qed.
+
+Lemma get_path_nil p : get_path p GNil = GNil.
+Proof. destruct p; reflexivity. Qed.
+
+Lemma set_path_size : forall p x v, (gsize (set_path p x v) + gsize (get_path p v) <= gsize v + gsize x)%nat.
+Proof.
+  induction p as [|i p IH]; intros x v; cbn [set_path get_path]; [lia|].
+  destruct v; try (cbn [gsize]; pose proof (gsize_pos x); lia).
+  destruct (Nat.ltb i (length vs)) eqn:E.
+  - apply Nat.ltb_lt in E. specialize (IH x (nth i vs GNil)).
+    pose proof (gsum_replace_nth (set_path p x (nth i vs GNil)) vs i E).
+    cbn [gsize]. fold (gsum vs). fold (gsum (replace_nth i (set_path p x (nth i vs GNil)) vs)). lia.
+  - apply Nat.ltb_ge in E. rewrite replace_nth_beyond by exact E.
+    rewrite nth_overflow by exact E. rewrite get_path_nil. pose proof (gsize_pos x). cbn [gsize]. lia.
+Qed.
+
+Lemma Wfields_in fs : forall n tg ft, In (n, tg, ft) fs -> (W ft <= Wfields fs)%nat.
+Proof.
+  induction fs as [|[[n' tg'] ft'] fs IH]; intros n tg ft H; [contradiction|].
+  rewrite Wfields_cons. destruct H as [H|H]; [injection H as _ _ ->; lia|]. specialize (IH _ _ _ H). lia.
+Qed.
+
+Lemma field_table_W : forall fuel fs idx tab, field_table fuel fs idx = inr tab ->
+  forall k path ft, In (k, (path, ft)) tab -> (W ft <= Wfields fs)%nat.
+Proof.
+  induction fuel as [|f IH]; intros fs idx tab H k path ft Hin; [discriminate H|].
+  cbn [field_table] in H. destruct fs as [|[[name tag] ft0] fs]; [injection H as <-; contradiction|].
+  rewrite Wfields_cons.
+  destruct (field_table f fs (S idx)) as [err|b] eqn:Er.
+  - destruct (negb (exported name)); [discriminate H|].
+    destruct (parse_tags tag) as [tn o]. destruct (t_omit o); [discriminate H|].
+    destruct (t_squash o); [destruct ft0; try discriminate H; destruct (field_table f fs0 0); discriminate H|discriminate H].
+  - assert (Hb : forall k path ft, In (k, (path, ft)) b -> (W ft <= Nat.max (W ft0) (Wfields fs))%nat).
+    { intros k' p' ft' H'. specialize (IH _ _ _ Er _ _ _ H'). lia. }
+    destruct (negb (exported name)); [injection H as <-; eauto|].
+    destruct (parse_tags tag) as [tn o]. destruct (t_omit o); [injection H as <-; eauto|].
+    destruct (t_squash o).
+    + destruct ft0; try discriminate H.
+      destruct (field_table f fs0 0) as [err|sub] eqn:Es; [discriminate H|].
+      match type of H with (if ?c then _ else _) = _ => destruct c end; [discriminate H|].
+      injection H as <-. apply in_app_or in Hin. destruct Hin as [Hin|Hin]; [|eauto].
+      apply in_map_iff in Hin. destruct Hin as ([k' [p' ft']] & E & Hin). cbn [fst snd] in E. injection E as _ _ ->.
+      specialize (IH _ _ _ Es _ _ _ Hin). rewrite W_struct. lia.
+    + match type of H with (if ?c then _ else _) = _ => destruct c end; [discriminate H|].
+      injection H as <-. cbn [app] in Hin. destruct Hin as [Hin|Hin]; [|eauto].
+      injection Hin as _ _ ->. lia.
+Qed.
+
+Lemma assoc_key_in {A} k (l : list (bytes * A)) x : assoc_key k l = Some x -> exists k', In (k', x) l.
+Proof.
+  unfold assoc_key. destruct (find (fun e => bytes_eqb (fst e) k) l) as [[k' y]|] eqn:E; [|discriminate].
+  intro H. injection H as <-. apply find_some in E. exists k'. tauto.
+Qed.
+
+Lemma struct_loop_size f tab wmax : size_at f ->
+  (forall k path ft, In (k, (path, ft)) tab -> (W ft <= wmax)%nat) ->
+  forall g cur evs v rest,
+    struct_loop f tab g cur evs = UOk v rest ->
+    exists n, length evs = (n + 1 + length rest)%nat /\ (gsize v <= gsize cur + wmax * n)%nat.
+Proof.
+  intros Hel Hw. induction g as [|g IH]; intros cur evs v rest H; [rewrite struct_loop_O in H; discriminate H|].
+  assert (Hkey : forall k b p, struct_loop f tab (S g) cur (key_event k b :: p) = UOk v rest ->
+            exists n, length (key_event k b :: p) = (n + 1 + length rest)%nat /\ (gsize v <= gsize cur + wmax * n)%nat).
+  { intros k b p Hk. rewrite struct_loop_key in Hk.
+    destruct (assoc_key k tab) as [[path ft]|] eqn:Ek.
+    - destruct (uf f ft (get_path path cur) p) as [v' r'|] eqn:U; [|discriminate Hk].
+      apply Hel in U. destruct U as (n1 & U1 & U2 & U3).
+      apply IH in Hk. destruct Hk as (n & L1 & L2). exists (1 + n1 + n)%nat. cbn [length]. split; [lia|].
+      apply assoc_key_in in Ek. destruct Ek as [k' Ek]. specialize (Hw _ _ _ Ek).
+      pose proof (set_path_size path v' cur).
+      assert (ob ft (get_path path cur) <= gsize (get_path path cur))%nat by (unfold ob; destruct (fresh ft); lia).
+      nia.
+    - destruct (skip_value (S (length p)) p) as [r'| |] eqn:Es; try discriminate Hk.
+      apply skip_len in Es. destruct Es as (n1 & E1 & E2).
+      apply IH in Hk. destruct Hk as (n & L1 & L2). exists (1 + n1 + n)%nat. cbn [length]. split; [lia|nia]. }
+  destruct evs as [|h p]; [rewrite struct_loop_S in H; discriminate H|].
+  destruct h; try (rewrite struct_loop_S in H; discriminate H).
+  - rewrite struct_loop_S in H. injection H as <- <-. exists O. cbn [length]. split; lia.
+  - apply (Hkey k false p H).
+  - apply (Hkey k true p H).
+Qed.
+
+(* ---------- the main induction ---------- *)
+Definition is_nil_head (evs : list event) : bool := match evs with EVal SNil :: _ => true | _ => false end.
+
+Lemma uf_S_ptr_gen f t u old evs : under t = TPtr u ->
+  uf (S f) t old evs =
+  if is_nil_head evs then UOk GNil (tl evs)
+  else match uf f u (zero_of u) evs with UOk v r => UOk (GPtr v) r | UErr x => UErr x end.
+Proof.
+  intro U. rewrite (uf_S_ptr _ _ u) by exact U.
+  destruct evs as [|[s| | | | | | | | |] p]; cbv beta iota; cbn [is_nil_head tl]; try reflexivity.
+  destruct s; cbv beta iota; cbn [is_nil_head tl]; reflexivity.
+Qed.
+
+Lemma ifc_elem_facts bt :
+  fresh (ifc_elem bt) = true /\ (W (ifc_elem bt) <= cI)%nat /\ zs (ifc_elem bt) = 1%nat /\ is_refl (ifc_elem bt) = false.
+Proof. destruct bt; cbn; unfold cI; repeat split; lia. Qed.
+
+Lemma gsum_repeat z k : gsum (repeat z k) = (k * gsize z)%nat.
+Proof. induction k as [|k IH]; [reflexivity|]. cbn [repeat]. rewrite gsum_cons, IH. lia. Qed.
+
+Lemma slice_start_size e old l cur spare wasnil : slice_start e old l = (cur, spare, wasnil) ->
+  (1 + gsum cur + gsum spare <= gsize old + 4096 * zs e)%nat.
+Proof.
+  unfold slice_start. intro H.
+  assert (Hk : forall k : nat, (k <= 4096)%nat -> (1 + gsum (repeat (zero_of e) k) + gsum [] <= 1 + 4096 * zs e)%nat).
+  { intros k Hk. rewrite gsum_repeat, gsum_nil. fold (zs e). nia. }
+  assert (Hl : (Z.to_nat (Z.min l max_initial_len) <= 4096)%nat) by (unfold max_initial_len; lia).
+  destruct old; try (injection H as <- <- _; pose proof (Hk _ Hl); cbn [gsize]; lia).
+  destruct (l <? zlen vs); injection H as <- <- _; cbn [gsize]; fold (gsum vs).
+  - rewrite <- (firstn_skipn (Z.to_nat l) vs) at 3. rewrite gsum_app. lia.
+  - rewrite gsum_nil. lia.
+Qed.
+
+Lemma map_start_size e old : (1 + gsumkv (opt_map (map_start e old)) <= gsize old)%nat.
+Proof.
+  unfold map_start. destruct old; try (destruct (is_refl e); cbn; lia).
+  cbn [opt_map gsize]. fold (gsumkv kvs). lia.
+Qed.
+
+Theorem size_all : forall fuel, size_at fuel.
+Proof.
+  induction fuel as [fuel IHlt] using lt_wf_ind. intros t old evs v rest H.
+  destruct fuel as [|f]; [rewrite uf_O in H; discriminate H|].
+  assert (IHf : size_at f) by (apply IHlt; lia).
+  unfold size_ok.
+  destruct (unsup_cases t) as [U|[U|[U|[[k U]|[U|[[u U]|[[e U]|[[e U]|[fs U]]]]]]]]].
+  - rewrite uf_S_unsup in H by exact U. discriminate H.
+  - assert (Hp : prim_kind t = true) by (unfold prim_kind; rewrite U; reflexivity).
+    destruct (uf_prim_one _ _ _ _ _ _ Hp H) as [[h ->] Hs]. exists 1%nat. cbn [length].
+    rewrite Hs, (W_under t), U. cbn [W]. repeat split; lia.
+  - assert (Hp : prim_kind t = true) by (unfold prim_kind; rewrite U; reflexivity).
+    destruct (uf_prim_one _ _ _ _ _ _ Hp H) as [[h ->] Hs]. exists 1%nat. cbn [length].
+    rewrite Hs, (W_under t), U. cbn [W]. repeat split; lia.
+  - assert (Hp : prim_kind t = true) by (unfold prim_kind; rewrite U; reflexivity).
+    destruct (uf_prim_one _ _ _ _ _ _ Hp H) as [[h ->] Hs]. exists 1%nat. cbn [length].
+    rewrite Hs, (W_under t), U. cbn [W]. repeat split; lia.
+  - (* interface{} *)
+    rewrite uf_S_iface in H by exact U. rewrite (W_under t), U. cbn [W].
+    destruct evs as [|[s|b|l bt| |l bt| | | | |] p]; try discriminate H.
+    + injection H as <- <-. exists 1%nat. cbn [length].
+      assert (gsize (ifc_scalar s) <= 2)%nat by (destruct s; cbn; lia). unfold cI. repeat split; lia.
+    + destruct (ifc_elem_facts bt) as (F1 & F2 & F3 & F4).
+      destruct f as [|f']; [rewrite uf_O in H; discriminate H|].
+      rewrite (uf_S_slice _ _ (ifc_elem bt)) in H by reflexivity. cbn [slice_start] in H.
+      match type of H with (match ?X with _ => _ end) = _ => destruct X as [v' r'|] eqn:L end; [|discriminate H].
+      injection H as <- <-.
+      apply (slice_loop_size f') in L; [|apply IHlt; lia]. destruct L as (n & L1 & L2).
+      exists (n + 2)%nat. cbn [length]. split; [lia|]. split; [lia|].
+      rewrite gsum_repeat, gsum_nil in L2. fold (zs (ifc_elem bt)) in L2. rewrite F3 in L2.
+      unfold zs' in L2. rewrite F1 in L2.
+      assert (Z.to_nat (Z.min (Z.max l 0) max_initial_len) <= 4096)%nat by (unfold max_initial_len; lia).
+      cbn [gsize]. unfold cI in *. nia.
+    + destruct (ifc_elem_facts bt) as (F1 & F2 & F3 & F4).
+      destruct f as [|f']; [rewrite uf_O in H; discriminate H|].
+      rewrite (uf_S_map _ _ (ifc_elem bt)) in H by reflexivity.
+      match type of H with (match ?X with _ => _ end) = _ => destruct X as [v' r'|] eqn:L end; [|discriminate H].
+      injection H as <- <-.
+      apply (map_loop_size f') in L; [|apply IHlt; lia]. destruct L as (n & L1 & L2).
+      exists (n + 2)%nat. cbn [length]. split; [lia|]. split; [lia|].
+      unfold map_start in L2. rewrite F4 in L2. cbn [opt_map] in L2. change (gsumkv []) with O in L2.
+      unfold zs' in L2. rewrite F1 in L2.
+      cbn [gsize]. unfold cI in *. nia.
+  - (* pointer *)
+    rewrite (uf_S_ptr_gen _ _ u) in H by exact U. rewrite (W_under t), U. cbn [W].
+    assert (Ho : ob t old = gsize old) by (unfold ob, fresh, prim_kind; rewrite U; reflexivity). rewrite Ho.
+    pose proof (gsize_pos old).
+    destruct (is_nil_head evs) eqn:En.
+    + injection H as <- <-. destruct evs as [|h p]; [discriminate En|]. exists 1%nat. cbn [length tl gsize]. repeat split; lia.
+    + destruct (uf f u (zero_of u) evs) as [v' r'|] eqn:E; [|discriminate H]. injection H as <- <-.
+      apply IHf in E. destruct E as (n & E1 & E2 & E3). exists n. split; [exact E1|]. split; [exact E2|].
+      assert (ob u (zero_of u) <= zs u)%nat by (unfold ob, zs; destruct (fresh u); lia).
+      cbn [gsize]. nia.
+  - (* slice *)
+    rewrite (uf_S_slice _ _ e) in H by exact U. rewrite (W_under t), U. cbn [W].
+    assert (Ho : ob t old = gsize old) by (unfold ob, fresh, prim_kind; rewrite U; reflexivity). rewrite Ho.
+    destruct evs as [|[s|b|l bt| |l bt| | | | |] p]; try discriminate H.
+    destruct (slice_start e old (Z.max l 0)) as [[cur spare] wasnil] eqn:Es.
+    apply (slice_loop_size f _ _ _ IHf) in H. destruct H as (n & L1 & L2).
+    apply slice_start_size in Es. pose proof (zs'_le e).
+    exists (n + 2)%nat. cbn [length]. split; [lia|]. split; [lia|]. nia.
+  - (* map *)
+    rewrite (uf_S_map _ _ e) in H by exact U. rewrite (W_under t), U. cbn [W].
+    assert (Ho : ob t old = gsize old) by (unfold ob, fresh, prim_kind; rewrite U; reflexivity). rewrite Ho.
+    destruct evs as [|[s|b|l bt| |l bt| | | | |] p]; try discriminate H.
+    apply (map_loop_size f _ _ IHf) in H. destruct H as (n & L1 & L2).
+    pose proof (map_start_size e old). pose proof (zs'_le e).
+    exists (n + 2)%nat. cbn [length]. split; [lia|]. split; [lia|]. nia.
+  - (* struct *)
+    rewrite (uf_S_struct _ _ fs) in H by exact U. rewrite (W_under t), U, W_struct.
+    assert (Ho : ob t old = gsize old) by (unfold ob, fresh, prim_kind; rewrite U; reflexivity). rewrite Ho.
+    destruct evs as [|[s|b|l bt| |l bt| | | | |] p]; try discriminate H.
+    destruct (field_table (S (ftsize t)) fs 0) as [err|tab] eqn:Et; [discriminate H|].
+    apply (struct_loop_size f tab (Wfields fs) IHf (field_table_W _ _ _ _ Et)) in H.
+    destruct H as (n & L1 & L2). exists (n + 2)%nat. cbn [length]. split; [lia|]. split; [lia|]. nia.
+Qed.
+
+(* C14: what a document adds to the target is proportional to the number of events it
+   consists of.  The factor [W t] depends on the target type only: an announced array length
+   never enters - an array start makes the unfolder pre-allocate at most [max_initial_len]
+   (4096) zero elements, which is what the factor 2049 (per start and end event) pays for. *)
+Theorem C14_size_bound : forall fuel t old evs v rest,
+  uf fuel t old evs = UOk v rest ->
+  (length rest < length evs)%nat /\
+  (gsize v <= gsize old + W t * (length evs - length rest))%nat.
+Proof.
+  intros fuel t old evs v rest H. destruct (size_all fuel _ _ _ _ _ H) as (n & H1 & H2 & H3).
+  split; [lia|]. replace (length evs - length rest)%nat with n by lia.
+  assert (ob t old <= gsize old)%nat by (unfold ob; destruct (fresh t); lia). lia.
+Qed.
+Print Assumptions C14_size_bound.
+
+Corollary C14_unfold_value : forall t old evs v,
+  unfold_value t old evs = UDone v ->
+  (gsize v <= gsize old + W t * length (flat_map expand evs))%nat.
+Proof.
+  intros t old evs v H. unfold unfold_value in H. destruct (ucc_type t); [discriminate H|].
+  match type of H with (match ?X with _ => _ end) = _ => destruct X as [v' [|x r']|[|x r']] eqn:E end; try discriminate H.
+  injection H as <-. apply C14_size_bound in E. cbn [length] in E. rewrite Nat.sub_0_r in E. tauto.
+Qed.
+Print Assumptions C14_unfold_value.
+
+(* interface{} targets (whose previous content is dropped): 2049 per event, whatever the
+   announced lengths *)
+Corollary C14_iface : forall fuel old evs v rest,
+  uf fuel TIface old evs = UOk v rest -> (gsize v <= 2049 * (length evs - length rest))%nat.
+Proof.
+  intros fuel old evs v rest H. destruct (size_all fuel _ _ _ _ _ H) as (n & H1 & H2 & H3).
+  replace (length evs - length rest)%nat with n by lia. exact H3.
+Qed.
+
+(* the unfolder always makes progress: a successful step consumes at least one event *)
+Corollary C14_progress : forall fuel t old evs v rest,
+  uf fuel t old evs = UOk v rest -> (length rest < length evs)%nat.
+Proof. intros. eapply C14_size_bound; eauto. Qed.
+
+(* a stream that announces a huge array but delivers one element *)
+Example C14_lying_length :
+  uf 10 TIface GNil [EArrStart 1000000000000 BAny; EVal (SNum KInt 7); EArrEnd]
   = UOk (GIface (TSlice TIface) (GList (GIface (TNum KInt) (GNum 7) :: repeat GNil 4095))) [].
 Proof. vm_compute. reflexivity. Qed.
+
+(* ====================================================================== *)
+(* Part 5: C17 - a completed document leaves nothing behind                *)
+(* ====================================================================== *)
+
+(* [seq_at tr]: whatever the target, if the unfolder accepts a value whose events are those
+   of [tr], it has consumed exactly these events, and it produces the same result with the
+   same events followed by anything else (and with more fuel). *)
+Definition seq_at (tr : tree) : Prop :=
+  forall fuel t old rest1 v r,
+    uf fuel t old (flatten tr ++ rest1) = UOk v r ->
+    r = rest1 /\
+    forall fuel2 rest2, (fuel <= fuel2)%nat -> uf fuel2 t old (flatten tr ++ rest2) = UOk v rest2.
+
+Lemma seq_slice_loop f e wasnil refl es : Forall seq_at es ->
+  forall g1 cur spare idx rest1 v r,
+    slice_loop f e wasnil refl g1 cur spare idx (flatten_elems es ++ EArrEnd :: rest1) = UOk v r ->
+    r = rest1 /\
+    forall f2 g2 rest2, (f <= f2)%nat -> (length es < g2)%nat ->
+      slice_loop f2 e wasnil refl g2 cur spare idx (flatten_elems es ++ EArrEnd :: rest2) = UOk v rest2.
+Proof.
+  induction 1 as [|x es Hx Hes IH]; intros g1 cur spare idx rest1 v r H.
+  - destruct g1 as [|g1]; [rewrite slice_loop_O in H; discriminate H|].
+    cbn [flatten_elems flat_map app] in *. rewrite slice_loop_S in H. injection H as <- <-.
+    split; [reflexivity|]. intros f2 g2 rest2 _ Hg. destruct g2 as [|g2]; [lia|]. rewrite slice_loop_S. reflexivity.
+  - destruct g1 as [|g1]; [rewrite slice_loop_O in H; discriminate H|].
+    rewrite flatten_elems_cons, <- app_assoc in H.
+    destruct (flatten_head x) as (h & tl & E & Hh).
+    assert (Hstep : forall rest, flatten x ++ flatten_elems es ++ EArrEnd :: rest = h :: tl ++ flatten_elems es ++ EArrEnd :: rest)
+      by (intro rest; rewrite E; reflexivity).
+    rewrite Hstep, slice_loop_step in H by exact Hh.
+    destruct (refl && is_nil_ev h) eqn:Enil.
+    + apply andb_true_iff in Enil. destruct Enil as [-> Enil].
+      assert (tl = []) as -> by (eapply flatten_nil_ev; eauto). cbn [app] in H.
+      destruct (IH _ _ _ _ _ _ _ H) as [-> IH2]. split; [reflexivity|].
+      intros f2 g2 rest2 Hf Hg. destruct g2 as [|g2]; [cbn in Hg; lia|].
+      rewrite flatten_elems_cons, <- app_assoc, Hstep, slice_loop_step by exact Hh.
+      rewrite Enil. cbn [andb app]. apply IH2; [exact Hf|cbn [length] in Hg; lia].
+    + rewrite <- Hstep in H.
+      destruct (uf f e (sl_oldel e refl cur spare idx) (flatten x ++ flatten_elems es ++ EArrEnd :: rest1)) as [v' r'|] eqn:U;
+        [|discriminate H].
+      destruct (Hx _ _ _ _ _ _ U) as [-> Hx2].
+      destruct (IH _ _ _ _ _ _ _ H) as [-> IH2]. split; [reflexivity|].
+      intros f2 g2 rest2 Hf Hg. destruct g2 as [|g2]; [cbn in Hg; lia|].
+      rewrite flatten_elems_cons, <- app_assoc, Hstep, slice_loop_step by exact Hh.
+      rewrite Enil, <- Hstep. rewrite (Hx2 f2 _ Hf). apply IH2; [exact Hf|cbn [length] in Hg; lia].
+Qed.
+
+Lemma seq_map_loop f e refl ms : Forall (fun m => seq_at (snd m)) ms ->
+  forall g1 cur rest1 v r,
+    map_loop f e refl g1 cur (flatten_members ms ++ EObjEnd :: rest1) = UOk v r ->
+    r = rest1 /\
+    forall f2 g2 rest2, (f <= f2)%nat -> (length ms < g2)%nat ->
+      map_loop f2 e refl g2 cur (flatten_members ms ++ EObjEnd :: rest2) = UOk v rest2.
+Proof.
+  induction 1 as [|[[k b] x] ms Hx Hms IH]; intros g1 cur rest1 v r H.
+  - destruct g1 as [|g1]; [rewrite map_loop_O in H; discriminate H|].
+    cbn [flatten_members flat_map app] in *. rewrite map_loop_S in H. injection H as <- <-.
+    split; [reflexivity|]. intros f2 g2 rest2 _ Hg. destruct g2 as [|g2]; [lia|]. rewrite map_loop_S. reflexivity.
+  - destruct g1 as [|g1]; [rewrite map_loop_O in H; discriminate H|]. cbn [snd] in Hx.
+    rewrite flatten_members_cons, <- app_comm_cons, <- app_assoc in H.
+    destruct (flatten_head x) as (h & tl & E & Hh).
+    assert (Hstep : forall rest, flatten x ++ flatten_members ms ++ EObjEnd :: rest = h :: tl ++ flatten_members ms ++ EObjEnd :: rest)
+      by (intro rest; rewrite E; reflexivity).
+    rewrite map_loop_key, Hstep in H.
+    destruct (refl && is_nil_ev h) eqn:Enil.
+    + apply andb_true_iff in Enil. destruct Enil as [-> Enil].
+      assert (tl = []) as -> by (eapply flatten_nil_ev; eauto). cbn [app] in H.
+      destruct (IH _ _ _ _ _ H) as [-> IH2]. split; [reflexivity|].
+      intros f2 g2 rest2 Hf Hg. destruct g2 as [|g2]; [cbn in Hg; lia|].
+      rewrite flatten_members_cons, <- app_comm_cons, <- app_assoc, map_loop_key, Hstep.
+      rewrite Enil. cbn [andb app]. apply IH2; [exact Hf|cbn [length] in Hg; lia].
+    + rewrite <- Hstep in H.
+      destruct (uf f e (zero_of e) (flatten x ++ flatten_members ms ++ EObjEnd :: rest1)) as [v' r'|] eqn:U;
+        [|discriminate H].
+      destruct (Hx _ _ _ _ _ _ U) as [-> Hx2].
+      destruct (IH _ _ _ _ _ H) as [-> IH2]. split; [reflexivity|].
+      intros f2 g2 rest2 Hf Hg. destruct g2 as [|g2]; [cbn in Hg; lia|].
+      rewrite flatten_members_cons, <- app_comm_cons, <- app_assoc, map_loop_key, Hstep.
+      rewrite Enil, <- Hstep. rewrite (Hx2 f2 _ Hf). apply IH2; [exact Hf|cbn [length] in Hg; lia].
+Qed.
+
+Lemma seq_struct_loop f tab ms : Forall (fun m => seq_at (snd m)) ms -> forallb (fun m => plain (snd m)) ms = true ->
+  forall g1 cur rest1 v r,
+    struct_loop f tab g1 cur (flatten_members ms ++ EObjEnd :: rest1) = UOk v r ->
+    r = rest1 /\
+    forall f2 g2 rest2, (f <= f2)%nat -> (length ms < g2)%nat ->
+      struct_loop f2 tab g2 cur (flatten_members ms ++ EObjEnd :: rest2) = UOk v rest2.
+Proof.
+  induction 1 as [|[[k b] x] ms Hx Hms IH]; intros Hp g1 cur rest1 v r H.
+  - destruct g1 as [|g1]; [rewrite struct_loop_O in H; discriminate H|].
+    cbn [flatten_members flat_map app] in *. rewrite struct_loop_S in H. injection H as <- <-.
+    split; [reflexivity|]. intros f2 g2 rest2 _ Hg. destruct g2 as [|g2]; [lia|]. rewrite struct_loop_S. reflexivity.
+  - destruct g1 as [|g1]; [rewrite struct_loop_O in H; discriminate H|]. cbn [snd] in Hx.
+    cbn [forallb snd] in Hp. apply andb_true_iff in Hp. destruct Hp as [Hpx Hp]. specialize (IH Hp).
+    rewrite flatten_members_cons, <- app_comm_cons, <- app_assoc in H.
+    rewrite struct_loop_key in H.
+    assert (Hskip : forall rest, skip_value (S (length (flatten x ++ flatten_members ms ++ EObjEnd :: rest)))
+                                   (flatten x ++ flatten_members ms ++ EObjEnd :: rest)
+                                 = SkOk (flatten_members ms ++ EObjEnd :: rest)).
+    { intro rest. apply skip_plain; [exact Hpx|]. rewrite app_length. lia. }
+    destruct (assoc_key k tab) as [[path ft]|] eqn:Ek.
+    + destruct (uf f ft (get_path path cur) (flatten x ++ flatten_members ms ++ EObjEnd :: rest1)) as [v' r'|] eqn:U;
+        [|discriminate H].
+      destruct (Hx _ _ _ _ _ _ U) as [-> Hx2].
+      destruct (IH _ _ _ _ _ H) as [-> IH2]. split; [reflexivity|].
+      intros f2 g2 rest2 Hf Hg. destruct g2 as [|g2]; [cbn in Hg; lia|].
+      rewrite flatten_members_cons, <- app_comm_cons, <- app_assoc, struct_loop_key, Ek.
+      rewrite (Hx2 f2 _ Hf). apply IH2; [exact Hf|cbn [length] in Hg; lia].
+    + rewrite Hskip in H.
+      destruct (IH _ _ _ _ _ H) as [-> IH2]. split; [reflexivity|].
+      intros f2 g2 rest2 Hf Hg. destruct g2 as [|g2]; [cbn in Hg; lia|].
+      rewrite flatten_members_cons, <- app_comm_cons, <- app_assoc, struct_loop_key, Ek, Hskip.
+      apply IH2; [exact Hf|cbn [length] in Hg; lia].
+Qed.
+
+Lemma seq_val s : seq_at (TVal s false).
+Proof.
+  intros fuel. rewrite flatten_val. cbn [app].
+  induction fuel as [|f IHf]; intros t old rest1 v r H; [rewrite uf_O in H; discriminate H|].
+  destruct (unsup_cases t) as [U|[U|[U|[[k U]|[U|[[u U]|[[e U]|[[e U]|[fs U]]]]]]]]].
+  - rewrite uf_S_unsup in H by exact U. discriminate H.
+  - rewrite uf_S_bool in H by exact U. destruct s; try discriminate H; injection H as <- <-;
+      (split; [reflexivity|]; intros [|f2] rest2 Hle; [lia|]; rewrite uf_S_bool by exact U; reflexivity).
+  - rewrite uf_S_string in H by exact U. destruct s; try discriminate H; injection H as <- <-;
+      (split; [reflexivity|]; intros [|f2] rest2 Hle; [lia|]; rewrite uf_S_string by exact U; reflexivity).
+  - rewrite (uf_S_num _ _ k) in H by exact U. destruct s; try discriminate H; injection H as <- <-;
+      (split; [reflexivity|]; intros [|f2] rest2 Hle; [lia|]; rewrite (uf_S_num _ _ k) by exact U; reflexivity).
+  - rewrite uf_S_iface in H by exact U. injection H as <- <-.
+    split; [reflexivity|]; intros [|f2] rest2 Hle; [lia|]; rewrite uf_S_iface by exact U; reflexivity.
+  - rewrite (uf_S_ptr _ _ u) in H by exact U.
+    destruct s as [|b|x|k z];
+      try (injection H as <- <-; split; [reflexivity|]; intros [|f2] rest2 Hle; [lia|];
+           rewrite (uf_S_ptr _ _ u) by exact U; reflexivity);
+      (match type of H with (match ?X with _ => _ end) = _ => destruct X as [v' r'|] eqn:E end; [|discriminate H];
+       injection H as <- <-; destruct (IHf _ _ _ _ _ E) as [-> IH2]; split; [reflexivity|];
+       intros [|f2] rest2 Hle; [lia|]; rewrite (uf_S_ptr _ _ u) by exact U; rewrite (IH2 f2 rest2) by lia; reflexivity).
+  - rewrite (uf_S_slice _ _ e) in H by exact U. discriminate H.
+  - rewrite (uf_S_map _ _ e) in H by exact U. discriminate H.
+  - rewrite (uf_S_struct _ _ fs) in H by exact U. discriminate H.
+Qed.
+
+Lemma seq_arr len bt es : Forall seq_at es -> seq_at (TArr len bt es).
+Proof.
+  intros Hes fuel. rewrite flatten_arr.
+  assert (Hre : forall rest, (EArrStart len bt :: flatten_elems es ++ [EArrEnd]) ++ rest
+                             = EArrStart len bt :: flatten_elems es ++ EArrEnd :: rest).
+  { intro rest. cbn [app]. rewrite <- app_assoc. reflexivity. }
+  induction fuel as [|f IHf]; intros t old rest1 v r H; [rewrite uf_O in H; discriminate H|].
+  rewrite Hre in H.
+  destruct (unsup_cases t) as [U|[U|[U|[[k U]|[U|[[u U]|[[e U]|[[e U]|[fs U]]]]]]]]].
+  - rewrite uf_S_unsup in H by exact U. discriminate H.
+  - rewrite uf_S_bool in H by exact U. discriminate H.
+  - rewrite uf_S_string in H by exact U. discriminate H.
+  - rewrite (uf_S_num _ _ k) in H by exact U. discriminate H.
+  - rewrite uf_S_iface in H by exact U. rewrite <- Hre in H.
+    match type of H with (match ?X with _ => _ end) = _ => destruct X as [v' r'|] eqn:E end; [|discriminate H].
+    injection H as <- <-. destruct (IHf _ _ _ _ _ E) as [-> IH2]. split; [reflexivity|].
+    intros [|f2] rest2 Hle; [lia|]. rewrite Hre, uf_S_iface by exact U. rewrite <- Hre.
+    rewrite (IH2 f2 rest2) by lia. reflexivity.
+  - rewrite (uf_S_ptr _ _ u) in H by exact U. rewrite <- Hre in H.
+    match type of H with (match ?X with _ => _ end) = _ => destruct X as [v' r'|] eqn:E end; [|discriminate H].
+    injection H as <- <-. destruct (IHf _ _ _ _ _ E) as [-> IH2]. split; [reflexivity|].
+    intros [|f2] rest2 Hle; [lia|]. rewrite Hre, (uf_S_ptr _ _ u) by exact U. rewrite <- Hre.
+    rewrite (IH2 f2 rest2) by lia. reflexivity.
+  - rewrite (uf_S_slice _ _ e) in H by exact U.
+    destruct (slice_start e old (Z.max len 0)) as [[cur spare] wasnil] eqn:Est.
+    destruct (seq_slice_loop _ _ _ _ _ Hes _ _ _ _ _ _ _ H) as [-> L2]. split; [reflexivity|].
+    intros [|f2] rest2 Hle; [lia|]. rewrite Hre, (uf_S_slice _ _ e) by exact U. rewrite Est.
+    apply L2; [lia|]. rewrite app_length. cbn [length]. pose proof (flatten_elems_length_ge es). lia.
+  - rewrite (uf_S_map _ _ e) in H by exact U. discriminate H.
+  - rewrite (uf_S_struct _ _ fs) in H by exact U. discriminate H.
+Qed.
+
+Lemma seq_obj len bt ms : Forall (fun m => seq_at (snd m)) ms -> forallb (fun m => plain (snd m)) ms = true ->
+  seq_at (TObj len bt ms).
+Proof.
+  intros Hms Hp fuel. rewrite flatten_obj.
+  assert (Hre : forall rest, (EObjStart len bt :: flatten_members ms ++ [EObjEnd]) ++ rest
+                             = EObjStart len bt :: flatten_members ms ++ EObjEnd :: rest).
+  { intro rest. cbn [app]. rewrite <- app_assoc. reflexivity. }
+  assert (Hg : forall rest, (length ms < S (length (flatten_members ms ++ EObjEnd :: rest)))%nat).
+  { intro rest. rewrite app_length. cbn [length]. pose proof (flatten_members_length_ge ms). lia. }
+  induction fuel as [|f IHf]; intros t old rest1 v r H; [rewrite uf_O in H; discriminate H|].
+  rewrite Hre in H.
+  destruct (unsup_cases t) as [U|[U|[U|[[k U]|[U|[[u U]|[[e U]|[[e U]|[fs U]]]]]]]]].
+  - rewrite uf_S_unsup in H by exact U. discriminate H.
+  - rewrite uf_S_bool in H by exact U. discriminate H.
+  - rewrite uf_S_string in H by exact U. discriminate H.
+  - rewrite (uf_S_num _ _ k) in H by exact U. discriminate H.
+  - rewrite uf_S_iface in H by exact U. rewrite <- Hre in H.
+    match type of H with (match ?X with _ => _ end) = _ => destruct X as [v' r'|] eqn:E end; [|discriminate H].
+    injection H as <- <-. destruct (IHf _ _ _ _ _ E) as [-> IH2]. split; [reflexivity|].
+    intros [|f2] rest2 Hle; [lia|]. rewrite Hre, uf_S_iface by exact U. rewrite <- Hre.
+    rewrite (IH2 f2 rest2) by lia. reflexivity.
+  - rewrite (uf_S_ptr _ _ u) in H by exact U. rewrite <- Hre in H.
+    match type of H with (match ?X with _ => _ end) = _ => destruct X as [v' r'|] eqn:E end; [|discriminate H].
+    injection H as <- <-. destruct (IHf _ _ _ _ _ E) as [-> IH2]. split; [reflexivity|].
+    intros [|f2] rest2 Hle; [lia|]. rewrite Hre, (uf_S_ptr _ _ u) by exact U. rewrite <- Hre.
+    rewrite (IH2 f2 rest2) by lia. reflexivity.
+  - rewrite (uf_S_slice _ _ e) in H by exact U. discriminate H.
+  - rewrite (uf_S_map _ _ e) in H by exact U.
+    destruct (seq_map_loop _ _ _ _ Hms _ _ _ _ _ H) as [-> L2]. split; [reflexivity|].
+    intros [|f2] rest2 Hle; [lia|]. rewrite Hre, (uf_S_map _ _ e) by exact U.
+    apply L2; [lia|apply Hg].
+  - rewrite (uf_S_struct _ _ fs) in H by exact U.
+    destruct (field_table (S (ftsize t)) fs 0) as [err|tab] eqn:Et; [discriminate H|].
+    destruct (seq_struct_loop _ _ _ Hms Hp _ _ _ _ _ H) as [-> L2]. split; [reflexivity|].
+    intros [|f2] rest2 Hle; [lia|]. rewrite Hre, (uf_S_struct _ _ fs) by exact U. rewrite Et.
+    apply L2; [lia|apply Hg].
+Qed.
+
+Theorem seq_strict : forall tr, strict tr = true -> seq_at tr.
+Proof.
+  induction tr as [s r|len bt es IH|len bt ms IH|bt es|bt ms] using tree_ind'; intro Hs; try discriminate Hs.
+  - cbn [strict] in Hs. destruct r; [discriminate Hs|]. apply seq_val.
+  - apply seq_arr. cbn [strict] in Hs. rewrite forallb_forall in Hs. rewrite Forall_forall in *. auto.
+  - cbn [strict] in Hs. rewrite forallb_forall in Hs. apply seq_obj.
+    + rewrite Forall_forall in *. intros m Hm. apply IH; [exact Hm|]. specialize (Hs m Hm).
+      apply andb_true_iff in Hs. tauto.
+    + apply forallb_forall. intros m Hm. apply strict_plain. specialize (Hs m Hm). apply andb_true_iff in Hs. tauto.
+Qed.
+
+(* C17: if the unfolder accepts a document it has consumed exactly the document: the events
+   of the next document are untouched ... *)
+Theorem C17_exact : forall tr fuel t old rest v r,
+  uf fuel t old (flatten (expand_tree tr) ++ rest) = UOk v r -> r = rest.
+Proof. intros tr fuel t old rest v r H. exact (proj1 (seq_strict _ (strict_expand tr) _ _ _ _ _ _ H)). Qed.
+Print Assumptions C17_exact.
+
+(* ... and the result does not depend on what follows (nor on spare fuel) *)
+Theorem C17_rest_independent : forall tr fuel t old rest1 v r,
+  uf fuel t old (flatten (expand_tree tr) ++ rest1) = UOk v r ->
+  forall fuel2 rest2, (fuel <= fuel2)%nat ->
+    uf fuel2 t old (flatten (expand_tree tr) ++ rest2) = UOk v rest2.
+Proof. intros tr fuel t old rest1 v r H. exact (proj2 (seq_strict _ (strict_expand tr) _ _ _ _ _ _ H)). Qed.
+Print Assumptions C17_rest_independent.
+
+(* Two documents in sequence: if the first document alone completes with [v], then in the
+   concatenated stream the unfolder stops after the first document with the same [v] and the
+   second document is what remains. *)
+Theorem C17_sequence : forall tr t old v,
+  unfold_value t old (flatten tr) = UDone v ->
+  forall evs2 fuel2, (S (S (length (flat_map expand (flatten tr)))) + ftsize t <= fuel2)%nat ->
+    uf fuel2 t old (flat_map expand (flatten tr ++ evs2)) = UOk v (flat_map expand evs2).
+Proof.
+  intros tr t old v H evs2 fuel2 Hf. unfold unfold_value in H.
+  destruct (ucc_type t); [discriminate H|].
+  rewrite <- expand_deep_is_flatten in H, Hf.
+  match type of H with (match uf ?F _ _ _ with _ => _ end) = _ => set (fuel := F) in * end.
+  destruct (uf fuel t old (flatten (expand_tree tr))) as [v' [|x r']|[|x r']] eqn:E; try discriminate H.
+  injection H as ->.
+  rewrite <- (app_nil_r (flatten (expand_tree tr))) in E.
+  rewrite flat_map_app, <- expand_deep_is_flatten.
+  apply (C17_rest_independent _ _ _ _ _ _ _ E). exact Hf.
+Qed.
+Print Assumptions C17_sequence.
+
+(* ... so events delivered after a completed document are refused at the first of them:
+   nothing of the finished document is pending *)
+Corollary C17_after_done : forall tr t old v e evs2,
+  unfold_value t old (flatten tr) = UDone v ->
+  unfold_value t old (flatten tr ++ e :: evs2) = UFail (length (flat_map expand (flatten tr))).
+Proof.
+  intros tr t old v e evs2 H. pose proof (C17_sequence tr t old v H (e :: evs2)) as S2.
+  unfold unfold_value in *. destruct (ucc_type t); [discriminate H|].
+  rewrite S2 by (rewrite flat_map_app, app_length; lia).
+  cbn [flat_map]. pose proof (expand_length_pos e) as Hpos.
+  destruct (expand e ++ flat_map expand evs2) as [|x l] eqn:El.
+  - apply (f_equal (@length event)) in El. rewrite app_length in El. cbn [length] in El. lia.
+  - f_equal. rewrite <- El, flat_map_app. cbn [flat_map]. rewrite !app_length. lia.
+Qed.
+Print Assumptions C17_after_done.
